@@ -1,4 +1,105 @@
 // further operations (RPU edits, containers, file reader, C API) are added here
+use crate::{hex, unhex};
+use dolby_vision::av1::convert_regular_rpu_to_av1_payload;
+use dolby_vision::rpu::dovi_rpu::DoviRpu;
+
+/// CRC-32/MPEG-2, bitwise, independent of the `crc` crate
+pub fn crc32_mpeg2(data: &[u8]) -> u32 {
+    let mut crc: u32 = 0xFFFF_FFFF;
+    for b in data {
+        crc ^= (*b as u32) << 24;
+        for _ in 0..8 {
+            crc = if crc & 0x8000_0000 != 0 { (crc << 1) ^ 0x04C1_1DB7 } else { crc << 1 };
+        }
+    }
+    crc
+}
+
+/// valid raw RPU (prefix 0x19 .. 0x80) of exactly `size` payload bytes (without the 0x19 prefix)
+/// built from `base` by inserting pseudo-random bytes before the CRC
+pub fn rpu_of_size(base: &[u8], size: usize, seed: u64) -> Option<Vec<u8>> {
+    // base = 19 <body> <crc32> 80
+    let body_end = base.len() - 5;
+    let cur = base.len() - 1;
+    if size < cur {
+        return None;
+    }
+    let extra = size - cur;
+    let mut out = base[..body_end].to_vec();
+    let mut x = seed.wrapping_mul(6364136223846793005).wrapping_add(size as u64 | 1);
+    for _ in 0..extra {
+        x ^= x << 13;
+        x ^= x >> 7;
+        x ^= x << 17;
+        out.push((x >> 24) as u8);
+    }
+    let crc = crc32_mpeg2(&out[1..]);
+    out.extend_from_slice(&crc.to_be_bytes());
+    out.push(0x80);
+    Some(out)
+}
+
 pub fn dispatch(t: &[&str]) -> String {
-    panic!("unknown op {}", t[0]);
+    match t[0] {
+        // av1size <base_hex> <lo> <hi> <seed> [b5]: for every payload size in lo..=hi build a valid RPU,
+        // wrap it, check header/size, parse it back, compare with the direct parse
+        "av1size" => {
+            let base = unhex(t[1]);
+            let lo: usize = t[2].parse().unwrap();
+            let hi: usize = t[3].parse().unwrap();
+            let seed: u64 = t[4].parse().unwrap();
+            let b5 = t.len() > 5 && t[5] == "b5";
+            let mut fails = Vec::new();
+            let mut okc = 0usize;
+            for size in lo..=hi {
+                let rpu = match rpu_of_size(&base, size, seed) {
+                    Some(r) => r,
+                    None => continue,
+                };
+                let r = std::panic::catch_unwind(|| -> Result<(), String> {
+                    let direct = DoviRpu::parse_rpu(&rpu).map_err(|e| format!("direct-parse:{e}"))?;
+                    let mut wrapped = convert_regular_rpu_to_av1_payload(&rpu).map_err(|e| format!("wrap:{e}"))?;
+                    if wrapped[..9] != [0x00, 0x3B, 0x00, 0x00, 0x08, 0x00, 0x37, 0xCD, 0x08] {
+                        return Err("header".into());
+                    }
+                    if b5 {
+                        wrapped.insert(0, 0xB5);
+                    }
+                    let back = DoviRpu::parse_itu_t35_dovi_metadata_obu(&wrapped).map_err(|e| format!("parse-back:{e}"))?;
+                    let a = serde_json::to_string(&direct).unwrap();
+                    let b = serde_json::to_string(&back).unwrap();
+                    if a != b {
+                        return Err("json-differs".into());
+                    }
+                    // the library's own AV1 writer on the parsed RPU
+                    let w2 = back.write_av1_rpu_metadata_obu_t35_payload().map_err(|e| format!("write-av1:{e}"))?;
+                    let mut w2c = w2.clone();
+                    if b5 { w2c.insert(0, 0xB5); }
+                    if w2c != wrapped {
+                        return Err("rewrap-differs".into());
+                    }
+                    let raw = back.write_rpu().map_err(|e| format!("write-rpu:{e}"))?;
+                    if raw != rpu {
+                        return Err("raw-differs".into());
+                    }
+                    Ok(())
+                });
+                match r {
+                    Ok(Ok(())) => okc += 1,
+                    Ok(Err(e)) => fails.push(format!("{}:{}", size, e.replace(' ', "_"))),
+                    Err(_) => fails.push(format!("{}:panic", size)),
+                }
+            }
+            format!("ok {} {}", okc, if fails.is_empty() { "-".to_string() } else { fails.join(",") })
+        }
+        // rpusize <base_hex> <size> <seed> -> the generated RPU (for replay / model correspondence)
+        "rpusize" => {
+            let base = unhex(t[1]);
+            match rpu_of_size(&base, t[2].parse().unwrap(), t[3].parse().unwrap()) {
+                Some(r) => format!("ok {}", hex(&r)),
+                None => "err".into(),
+            }
+        }
+        _ => panic!("unknown op {}", t[0]),
+    }
 }
